@@ -19,6 +19,7 @@ import vlib
 import c13_lib as L
 import c15_lib
 import c13_hist as H
+import c13_hvf as V
 
 HDR = ("From Coq Require Import List ZArith Bool PrimFloat.\nFrom RV Require Import Common.FloatNum C13.Model C13.TreeModel C13.Hybrid C13.Run.\n"
        "Import ListNotations.\nOpen Scope Z_scope.\nOpen Scope float_scope.\n")
@@ -901,6 +902,44 @@ def search_hybrid_multi(ctx, rebound, fails):
                                bodies_in_array_order=[bodies[i] for i in order], problem=bad)))
 
 
+def search_history_vs_fresh(ctx, rebound, fails):
+    """an object with a history (earlier searches with merge / hardsphere / arbitrary removals, removals of the largest spheres,
+    remove+add with N unchanged, radii shrunk or grown by assignment, search mode switched and switched back or switched to the
+    tree, time advanced) must hand the same collisions to the resolver and, after resolving them with merge, hold the same
+    particles as a FRESH simulation built from its current particles, time and settings."""
+    rng = ctx.rng
+    for k in range(ctx.scale(120, 1500)):
+        tree = rng.random() < 0.5
+        cfg = L.gen_cluster(rng, tree=tree, line=rng.random() < 0.3, big=tree and rng.random() < 0.4)
+        sim = L.make_sim(rebound, cfg)
+        ops = V.apply_history(rng, rebound, sim, cfg)
+        f = V.fresh_like(rebound, sim, cfg)
+        if f is None:
+            continue
+        ctx.evaluations += 1
+        a, b = V.handed_set(rebound, sim), V.handed_set(rebound, f)
+        bad = None
+        treemode = int(sim._collision) in (2, 5)
+        if (V.unordered(a) != V.unordered(b)) if treemode else (a != b):
+            bad = "handed to resolve with history %s but not fresh: %s; fresh but not with history: %s" % (
+                ops, sorted(set(V.unordered(a)) - set(V.unordered(b)))[:3], sorted(set(V.unordered(b)) - set(V.unordered(a)))[:3])
+        else:
+            for s_ in (sim, f):
+                s_.collision_resolve = "merge"
+                rebound.clibrebound.reb_collision_search(ctypes.byref(s_))
+            A, B = V.state_by_hash(sim), V.state_by_hash(f)
+            if set(A) != set(B):
+                bad = "after merging, history %s keeps %s, fresh keeps %s" % (ops, sorted(set(A) - set(B)), sorted(set(B) - set(A)))
+            elif not treemode and any(not vlib.same_bits(x, y) for h in A for x, y in zip(A[h], B[h])):
+                bad = "after merging, particle data differ between the object with history %s and the fresh one" % ops
+        ctx.nontrivial.add(("hvf", cfg["mode"], tuple(sorted(set(ops)))))
+        if bad:
+            cause = "radius_assigned_after_add" if ("grow" in ops and treemode) else ("tree_switched_on_after_add" if "to_tree" in ops else "other")
+            mode = {1: "direct", 2: "tree", 4: "line", 5: "linetree"}.get(int(sim._collision), "?")
+            fails.append(("hvf:%s:%s" % ("tree" if treemode else mode, cause),
+                          dict(kind="history_vs_fresh", cfg=cfg_replay(cfg), ops=ops, problem=bad)))
+
+
 # ================================================================================================ entry point
 def run(ctx):
     libdir = ctx.lib()
@@ -926,6 +965,8 @@ def run(ctx):
     search_restore(ctx, rebound, fails)
     search_histories(ctx, rebound, fails)
     search_hybrid_multi(ctx, rebound, fails)
+    search_history_vs_fresh(ctx, rebound, fails)
+    ctx.log("history-vs-fresh done")
     ctx.log("history searcher done")
     seen = set()
     for key, rep in fails:
